@@ -208,6 +208,7 @@ def u_sparse_create(ctx):
     def lnd(x_, args, kwargs, st_, n):
         made.append((args, kwargs)); return st_.alloc("Interpolator", {})
     x.ext_names["LinearNDInterpolator"] = VFunc("LinearNDInterpolator", lnd)
+    x.ext_names["numpy"] = VModule("numpy"); x.ext["numpy.nan"] = num(float("nan")); x.ext["numpy.inf"] = num(float("inf"))
     def zip_(x_, recv, args, kwargs, st_): return None
     orig_iter = x.iter_builtin
     def iter_builtin(name, args, st_, n):
